@@ -17,7 +17,7 @@ Print Assumptions C07_table_matches_reference.
 (* P2  type checker = const evaluator = lowering = Rust's type of the emitted code = documented
        type, for arithmetic trees of any depth (literals/variables of either kind, Paren, unary
        minus, literal and non-literal exponents) — on the complement of known finding
-       neg-paren-zero ([clean]) *)
+       neg-paren-zero ([clean]; the only exclusion left) *)
 Theorem C07_phases_agree : forall e, clean e = true ->
   chk e = dty_res (doc_ty e) /\
   (paren_free e = true -> cst e = Some (dty_res (doc_ty e))) /\
@@ -32,7 +32,7 @@ Proof. exact cst_sound. Qed.
 Print Assumptions C07_const_type_sound.
 
 (* P3  comparisons are bool and may mix int and float, in the checker and in the emitted Rust *)
-Theorem C07_comparisons_bool : forall o l r, clean l = true -> clean r = true -> cast_lt o l r = false ->
+Theorem C07_comparisons_bool : forall o l r, clean l = true -> clean r = true ->
   chk_cmp o (chk l) (chk r) = ResolvedType_Bool /\
   rust_ty (IBin (ast_to_ir (cop_ast o)) (fst (lower l)) (ir_of (chk l)) (fst (lower r)) (ir_of (chk r))) = Some RBool.
 Proof. exact cmp_spec. Qed.
@@ -58,7 +58,8 @@ Print Assumptions C07_compound_assignment.
 (* P6'  which runtime helper the emitter calls: `_i64` helpers exactly for int // int and int % int,
         `py_div` always for `/`, integer `.pow` exactly when the documented result is int; an operand
         is cast to f64 exactly when it is int and the result is float — so the value computed is the
-        one C04 proves about that helper *)
+        one C04 proves about that helper; the base of `**` is grouped exactly when its emitted text ends
+        in a cast (promoted, or [tail_cast]), which is when an ungrouped method call would not be Rust *)
 Theorem C07_helper_choice : forall o l r, clean (ABin o l r) = true ->
   let dl := doc_ty l in let dr := doc_ty r in
   let d := doc_ty (ABin o l r) in
@@ -66,28 +67,30 @@ Theorem C07_helper_choice : forall o l r, clean (ABin o l r) = true ->
   emit_shape o l r =
   [ match o with ODiv => 2 | OMod => 30 + isf | OFloorDiv => 40 + isf | OPow => 50 + isf | _ => 1 end;
     bcode (match d, dl with DFloat, DInt => true | _, _ => false end);
-    bcode (match d, dr with DFloat, DInt => true | _, _ => false end) ].
+    bcode (match d, dr with DFloat, DInt => true | _, _ => false end);
+    bcode (match o with OPow => (match d, dl with DFloat, DInt => true | _, _ => false end) || tail_cast (fst (lower l)) | _ => false end) ].
 Proof. exact emit_shape_spec. Qed.
 Print Assumptions C07_helper_choice.
 
-(* P7'  known findings tail-cast-pow and tail-cast-lt are real in the model: `(2.5 + a) ** x`
-        and `(x + a) < y` type-check but the emitted tokens are not Rust (Paren is dropped and
-        the left operand's text ends in a cast) *)
-Theorem C07_cast_findings_refuted :
+(* P7'  regression witnesses of the repaired findings tail-cast-pow and tail-cast-lt: `(2.5 + a) ** x`
+        and `(x + a) < y` (the left operand's text ends in a cast) are grouped and well-typed Rust *)
+Theorem C07_tail_cast_findings_fixed :
   (let e := ABin OPow (AParen (ABin OAdd AFloatLit (AVar false))) (AVar true) in
-   clean e = false /\ chk e = ResolvedType_Float /\ rust_ty (fst (lower e)) = None) /\
+   clean e = true /\ chk e = ResolvedType_Float /\ rust_ty (fst (lower e)) = Some RF64 /\
+   tail_cast (fst (lower (AParen (ABin OAdd AFloatLit (AVar false))))) = true /\
+   emit_shape OPow (AParen (ABin OAdd AFloatLit (AVar false))) (AVar true) = [51; 0; 0; 1]) /\
   (let l := AParen (ABin OAdd (AVar true) (AVar false)) in let r := AVar true in
-   cast_lt CLt l r = true /\ chk_cmp CLt (chk l) (chk r) = ResolvedType_Bool /\
-   rust_ty (IBin (ast_to_ir (cop_ast CLt)) (fst (lower l)) (ir_of (chk l)) (fst (lower r)) (ir_of (chk r))) = None).
-Proof. exact cast_findings_refuted. Qed.
-Print Assumptions C07_cast_findings_refuted.
+   tail_cast (fst (lower l)) = true /\ group_lhs NumericOp_Lt false (fst (lower l)) = true /\
+   chk_cmp CLt (chk l) (chk r) = ResolvedType_Bool /\
+   rust_ty (IBin (ast_to_ir (cop_ast CLt)) (fst (lower l)) (ir_of (chk l)) (fst (lower r)) (ir_of (chk r))) = Some RBool).
+Proof. exact tail_cast_findings_fixed. Qed.
+Print Assumptions C07_tail_cast_findings_fixed.
 
 (* P7''  regression witnesses of the repaired findings cast-method-pow (`a ** b`) and cast-lt (`a < x`) *)
 Theorem C07_cast_findings_fixed :
   (let e := ABin OPow (AVar false) (AVar false) in
    clean e = true /\ chk e = ResolvedType_Float /\ rust_ty (fst (lower e)) = Some RF64) /\
   (let l := AVar false in let r := AVar true in
-   cast_lt CLt l r = false /\
    rust_ty (IBin (ast_to_ir (cop_ast CLt)) (fst (lower l)) (ir_of (chk l)) (fst (lower r)) (ir_of (chk r))) = Some RBool).
 Proof. exact cast_findings_fixed. Qed.
 Print Assumptions C07_cast_findings_fixed.
